@@ -4,6 +4,8 @@ import Flowjaxv.Proofs.AdDist
 import Flowjaxv.Proofs.AdPlanar
 import Flowjaxv.Proofs.AdMix
 import Flowjaxv.Proofs.AdNet
+import Flowjaxv.Proofs.AdSpline
+import Flowjaxv.Proofs.AdMvn
 /-!
 # C18 — finite log-probabilities have finite gradients; log_prob is never NaN
 
@@ -345,6 +347,106 @@ theorem coupling_instance :
     rcases hr with rfl | rfl
     · exact ⟨vsafeVec_ofVec _ 3 1, vsafe_param _ _ _⟩
     · exact ⟨fun e he => by simp only [List.mem_singleton] at he; subst he; exact vsafe_param _ _ _, vsafe_param _ _ _⟩
+
+
+/-! ## Extension: layers whose transformer has COMPUTED vector parameters -/
+section C18Ext
+open AdN AdS AdX Ad.Net
+
+/-- `GradFinite` for a kernel under bindings (`Model/AdSpline.lean`): finite value and, for every finite incoming cotangent, only
+finite adjoints — w.r.t. every element of every vector parameter of the environment (input, condition, every weight, every bias) -/
+abbrev GradFiniteX (env : Env EF) (e : VExpr EF) : Prop := AdX.GradFinX env e
+
+/-- **Coupling layer with the rational-quadratic-spline transformer, both directions.**
+For every number of knots `K ≥ 1`, every interval `lo < hi`, every `softmax_adjust ≥ 0` (the constructor's own argument check), every
+`min_derivative ≥ 0`, every real initial raw leaves `inits` of the transformer, every conditioner `net` that maps safe inputs to
+safe outputs (every `eqx.nn.MLP` with relu/tanh: `mlp_grad_finite`, for EVERY weight and bias), every untransformed size `u`, every
+input and condition expressions that are safe whatever the scalars hold (vector parameters holding ANY reals):
+every element of the output point and the log-det — of `transform_and_log_det` and of `inverse_and_log_det` — has a finite value and
+finite adjoints.  The pipeline is: conditioner output + initial leaf → generated `_real_to_increasing_on_interval` (softmax with
+`stop_gradient` of the maximum, cumsum, pad) / generated `softplus + min_derivative` → generated spline kernel.
+No finiteness-of-value hypothesis is needed: the values are finite for all real parameters and inputs. -/
+theorem coupling_spline_grad_finite {c : SplineCfg EF} {K : Nat} {lo hi adj md : ℝ} {inits : List ℝ}
+    (hK : c.K = K) (hK1 : 1 ≤ K) (hlo : c.lo = fin lo) (hhi : c.hi = fin hi) (hadj : c.adj = fin adj) (hmd : c.md = fin md)
+    (hinit : c.init = inits.map fin) (hlt : lo < hi) (hadj0 : 0 ≤ adj) (hmd0 : 0 ≤ md)
+    {env : Env EF} {net : List (Expr EF) → List (Expr EF)} (hnet : ∀ xs, VSafeVec env xs → VSafeVec env (net xs))
+    (u : Nat) {x cond : List (Expr EF)} (hx : VSafeVec env x) (hcond : VSafeVec env cond) :
+    (∀ e ∈ (couplingV u (3 * K + 2) net (splineTld c) x cond).1, GradFiniteX env e) ∧
+    GradFiniteX env (couplingV u (3 * K + 2) net (splineTld c) x cond).2 ∧
+    (∀ e ∈ (couplingV u (3 * K + 2) net (splineIld c) x cond).1, GradFiniteX env e) ∧
+    GradFiniteX env (couplingV u (3 * K + 2) net (splineIld c) x cond).2 := by
+  have hc : CfgOK c K lo hi adj md inits := ⟨hK, hK1, hlo, hhi, hadj, hmd, hinit, hlt, hadj0, hmd0⟩
+  have ht := couplingV_vsafeX (P := 3 * K + 2) (tf := splineTld c) (fun ps x h1 h2 => splineTld_vsafeX hc h1 h2) hnet u hx hcond
+  have hi' := couplingV_vsafeX (P := 3 * K + 2) (tf := splineIld c) (fun ps x h1 h2 => splineIld_vsafeX hc h1 h2) hnet u hx hcond
+  exact ⟨fun e he => gradFinX_of_safeX (ht.1 e he env rfl), gradFinX_of_safeX (ht.2 env rfl),
+         fun e he => gradFinX_of_safeX (hi'.1 e he env rfl), gradFinX_of_safeX (hi'.2 env rfl)⟩
+
+/-- **Masked autoregressive layer with the rational-quadratic-spline transformer**, `transform_and_log_det` (the direction the
+`log_prob` of the default `invert=True` flow evaluates, and the log-det of `inverse_and_log_det`); the conditioner is any masked MLP
+(`masked` weights are covered by `mlp_grad_finite`).  Same quantifiers and conclusion as `coupling_spline_grad_finite`. -/
+theorem maf_spline_grad_finite {c : SplineCfg EF} {K : Nat} {lo hi adj md : ℝ} {inits : List ℝ}
+    (hK : c.K = K) (hK1 : 1 ≤ K) (hlo : c.lo = fin lo) (hhi : c.hi = fin hi) (hadj : c.adj = fin adj) (hmd : c.md = fin md)
+    (hinit : c.init = inits.map fin) (hlt : lo < hi) (hadj0 : 0 ≤ adj) (hmd0 : 0 ≤ md)
+    {env : Env EF} {net : List (Expr EF) → List (Expr EF)} (hnet : ∀ xs, VSafeVec env xs → VSafeVec env (net xs))
+    {x cond : List (Expr EF)} (hx : VSafeVec env x) (hcond : VSafeVec env cond) :
+    (∀ e ∈ (autoregV (3 * K + 2) net (splineTld c) x cond).1, GradFiniteX env e) ∧
+    GradFiniteX env (autoregV (3 * K + 2) net (splineTld c) x cond).2 := by
+  have hc : CfgOK c K lo hi adj md inits := ⟨hK, hK1, hlo, hhi, hadj, hmd, hinit, hlt, hadj0, hmd0⟩
+  have ht := autoregV_vsafeX (P := 3 * K + 2) (tf := splineTld c) (fun ps x h1 h2 => splineTld_vsafeX hc h1 h2) hnet hx hcond
+  exact ⟨fun e he => gradFinX_of_safeX (ht.1 e he env rfl), gradFinX_of_safeX (ht.2 env rfl)⟩
+
+/-- the generated parameterisation on its own: for every non-empty array of real raw leaves the knot ASTs are gradient-finite and
+evaluate to strictly increasing knots from `lo` to `hi` -/
+theorem spline_params_grad_finite (raws : List ℝ) (hne : raws ≠ []) {lo hi adj : ℝ} (hlt : lo < hi) (hadj : 0 ≤ adj) :
+    (∀ e ∈ RealToIncreasingOnInterval.ast (Vec.ofVec 0 raws.length) (Expr.const (fin lo)) (Expr.const (fin hi)) (Expr.const (fin adj)),
+      GradFinite (envVecs [raws]) e) ∧
+    ∃ ks : List ℝ, AdV.EvalsTo (envVecs [raws])
+        (RealToIncreasingOnInterval.ast (Vec.ofVec 0 raws.length) (Expr.const (fin lo)) (Expr.const (fin hi)) (Expr.const (fin adj))) ks ∧
+      ks.Pairwise (· < ·) ∧ ks.head? = some lo ∧ ks.getLast? = some hi := by
+  have hv : ((envVecs [raws]).set 301001 (fin (hi - lo))).v 0 = raws.map fin := rfl
+  obtain ⟨h1, h2⟩ := posParam_safe (env := envVecs [raws]) hne hadj (AdV.ofVec_safe hv) (AdV.ofVec_evalsTo hv rfl)
+  obtain ⟨k1, _, k3, k4⟩ := ParamsPf.knots_generated hne hlt hadj
+  exact ⟨fun e he => gradFin_of_safe (h1 e he), _, h2, k1, k3, k4⟩
+
+/-- non-vacuity: dimension 2, one conditioning variable, `K = 2` knots on `(-2, 2)`, a relu conditioner with one hidden unit whose
+weight and bias are 0 (pre-activation exactly 0), input on the interval's lower end -/
+theorem coupling_spline_instance :
+    GradFiniteX (envVecs [[0.3, -2], [], [0], [0], [2, -3, 0.5, 1, 0, 0, 0, 0], [0.5, 0.25, 0, 0, 0, 0, 0, 0]])
+      (couplingV 1 8 (mlp Prim.relu [[(Vec.ofVec 2 1, Expr.get 3 (fun _ => 0))]]
+          ((List.range 8).map (fun i => ([Expr.get 4 (fun _ => Int.ofNat i)], Expr.get 5 (fun _ => Int.ofNat i)))))
+        (splineTld { K := 2, lo := fin (-2), hi := fin 2, adj := fin 0.01, md := fin 0.001, init := [0, 0, 0, 0, 0.5, 0.5, 0.5, 0.5].map fin })
+        (Vec.ofVec 0 2) []).2 := by
+  refine (coupling_spline_grad_finite (K := 2) (lo := -2) (hi := 2) (adj := 0.01) (md := 0.001) (inits := [0, 0, 0, 0, 0.5, 0.5, 0.5, 0.5])
+    rfl (by norm_num) rfl rfl rfl rfl rfl (by norm_num) (by norm_num) (by norm_num)
+    (fun xs hxs => mlp_vsafe relu_total ?_ ?_ hxs) 1 (vsafeVec_ofVec _ 0 2) (fun e he => by simp at he)).2.1
+  · intro L hL r hr
+    simp only [List.mem_singleton] at hL; subst hL
+    simp only [List.mem_singleton] at hr; subst hr
+    exact ⟨vsafeVec_ofVec _ 2 1, vsafe_param _ _ _⟩
+  · intro r hr
+    obtain ⟨i, _, rfl⟩ := List.mem_map.mp hr
+    exact ⟨fun e he => by simp only [List.mem_singleton] at he; subst he; exact vsafe_param _ _ _, vsafe_param _ _ _⟩
+
+/-- **MultivariateNormal** (`Transformed(StandardNormal((n,)), TriangularAffine(loc, cholesky))`), private `_log_prob`, and the two
+directions of its `TriangularAffine` (lower = True).  For EVERY dimension `n` and EVERY real content of the four vector parameters
+`vs = [x, loc, raw diagonal, arr]` (no length or sign hypothesis at all: the diagonal is `softplus(raw) > 0`, the strictly lower
+entries are read from `arr`, everything else is the constant 0): the log-density, every element of `inverse_and_log_det` /
+`transform_and_log_det` and their log-dets `∓Σ log|diag|` have finite values and finite adjoints w.r.t. the point, `loc`, every raw
+diagonal leaf and every entry of `arr`.  `solve_triangular` is forward substitution (divisions by the positive diagonal only). -/
+theorem mvn_grad_finite (n : Nat) (vs : List (List ℝ)) :
+    GradFinite (envVecs vs) (AdMvn.logProb n) ∧
+    (∀ e ∈ (AdMvn.ild n).1, GradFinite (envVecs vs) e) ∧ GradFinite (envVecs vs) (AdMvn.ild n).2 ∧
+    (∀ e ∈ (AdMvn.tld n).1, GradFinite (envVecs vs) e) ∧ GradFinite (envVecs vs) (AdMvn.tld n).2 :=
+  ⟨gradFin_of_safe (AdMvnT.logProb_safe vs n),
+   fun e he => gradFin_of_safe ((AdMvnT.ild_vsafe vs n).1 e he).safe, gradFin_of_safe (AdMvnT.ild_vsafe vs n).2.safe,
+   fun e he => gradFin_of_safe ((AdMvnT.tld_vsafe vs n).1 e he).safe, gradFin_of_safe (AdMvnT.tld_vsafe vs n).2.safe⟩
+
+/-- non-vacuity: dimension 3, a point equal to `loc`, a very negative raw diagonal leaf (tiny positive diagonal entry) -/
+theorem mvn_instance :
+    GradFinite (envVecs [[1, -2, 0.5], [1, -2, 0.5], [-20, 0, 3], [0, 9, 9, 2, 0, 9, -1.5, 1000, 0]]) (AdMvn.logProb 3) :=
+  (mvn_grad_finite 3 _).1
+
+end C18Ext
 
 end C18
 end
